@@ -113,7 +113,11 @@ func receive(data []byte, out net.Conn) {
 	var cblen uint16
 	binary.Read(buf, binary.LittleEndian, &cblen)
 	pkt := make([]byte, cblen)
-	binary.Read(buf, binary.LittleEndian, &pkt)
+	if err := binary.Read(buf, binary.LittleEndian, &pkt); err != nil {
+		// never forward bytes the client did not send
+		log.Printf("Data packet carries less than its reported length %d, dropped: %s", cblen, err)
+		return
+	}
 
 	out.Write(pkt)
 }
